@@ -9,7 +9,7 @@ from .. import gen, impl, oracle, progs, ser, stream
 
 ID = "C05"
 LEVEL = "proof"
-PROPS_MODULE = "SymmModel.Props.C05All"
+PROPS_MODULE = "SymmModel.Props.C05All2"
 THEOREMS = [
     "SymmModel.C05.calcFuseGroupInfo_perm",
     "SymmModel.C05.fuseA_eq_fuseCore",
@@ -39,10 +39,17 @@ THEOREMS = [
     "SymmModel.C05.fuseF_elem",
     "SymmModel.C05.fuseSign_formula",
     "SymmModel.C05.unfuseF_elem",
-    "SymmModel.C05.unfuseSign_def"
+    "SymmModel.C05.unfuseSign_def",
+    "SymmModel.C05.koszul_vperm_groups",
+    "SymmModel.C05.fuseSign_groups",
+    "SymmModel.C05.newGroups_consecutive",
+    "SymmModel.C05.unfuseSign_reversal",
+    "SymmModel.C05.unfuseF_fuseF",
+    "SymmModel.C05.unfuse_fuse_blocks_depth2",
+    "SymmModel.C05.fuse_elem_depth2"
 ]
-LEAN_FILES = ["SymmModel.Props.C05", "SymmModel.Proofs.FuseLemmas", "SymmModel.Proofs.FuseBase", "SymmModel.Proofs.FuseAssoc", "SymmModel.Proofs.FuseTable", "SymmModel.Proofs.FusePlan", "SymmModel.Proofs.FuseWf", "SymmModel.Proofs.FuseSpec", "SymmModel.Proofs.FuseAddr", "SymmModel.Proofs.FuseIns", "SymmModel.Proofs.FuseOne", "SymmModel.Proofs.FuseInsert", "SymmModel.Proofs.FuseSem", "SymmModel.Proofs.FuseUnfuse", "SymmModel.Proofs.FuseRound", "SymmModel.Proofs.FuseAll", "SymmModel.Proofs.FuseElem", "SymmModel.Proofs.FuseConcat", "SymmModel.Proofs.FuseConcat2", "SymmModel.Proofs.FuseConcat3", "SymmModel.Props.C05b", "SymmModel.Props.C05c", "SymmModel.Props.C05All", "SymmModel.Proofs.FuseMultiAll", "SymmModel.Proofs.FuseMulti1", "SymmModel.Proofs.FuseMulti2", "SymmModel.Proofs.FuseMulti3", "SymmModel.Proofs.FuseMulti4", "SymmModel.Proofs.FuseMulti5", "SymmModel.Proofs.FuseMulti6", "SymmModel.Proofs.FuseMulti7", "SymmModel.Proofs.FuseMultiU", "SymmModel.Proofs.FuseMultiR1", "SymmModel.Proofs.FuseMultiR2", "SymmModel.Proofs.FuseMultiR3", "SymmModel.Proofs.FuseMultiR4", "SymmModel.Proofs.FuseMultiR5", "SymmModel.Proofs.FuseFermi1", "SymmModel.Proofs.FuseFermi2", "SymmModel.Proofs.FuseFermi3", "SymmModel.Proofs.FuseFermi4", "SymmModel.Proofs.FuseFermi5", "SymmModel.Proofs.FuseFermi6", "SymmModel.Proofs.FuseFermi7"]
-PLANNED = ["fuseInsert_eq_fuseConcat for several groups (one group proved)", "per-group reversal factorisation of the fermionic fuse sign", "unfuseF_fuseF as one composed theorem (both halves proved)", "fuse_cache_irrelevant (via C15)"]
+LEAN_FILES = ["SymmModel.Props.C05", "SymmModel.Proofs.FuseLemmas", "SymmModel.Proofs.FuseBase", "SymmModel.Proofs.FuseAssoc", "SymmModel.Proofs.FuseTable", "SymmModel.Proofs.FusePlan", "SymmModel.Proofs.FuseWf", "SymmModel.Proofs.FuseSpec", "SymmModel.Proofs.FuseAddr", "SymmModel.Proofs.FuseIns", "SymmModel.Proofs.FuseOne", "SymmModel.Proofs.FuseInsert", "SymmModel.Proofs.FuseSem", "SymmModel.Proofs.FuseUnfuse", "SymmModel.Proofs.FuseRound", "SymmModel.Proofs.FuseAll", "SymmModel.Proofs.FuseElem", "SymmModel.Proofs.FuseConcat", "SymmModel.Proofs.FuseConcat2", "SymmModel.Proofs.FuseConcat3", "SymmModel.Props.C05b", "SymmModel.Props.C05c", "SymmModel.Props.C05All", "SymmModel.Proofs.FuseMultiAll", "SymmModel.Proofs.FuseMulti1", "SymmModel.Proofs.FuseMulti2", "SymmModel.Proofs.FuseMulti3", "SymmModel.Proofs.FuseMulti4", "SymmModel.Proofs.FuseMulti5", "SymmModel.Proofs.FuseMulti6", "SymmModel.Proofs.FuseMulti7", "SymmModel.Proofs.FuseMultiU", "SymmModel.Proofs.FuseMultiR1", "SymmModel.Proofs.FuseMultiR2", "SymmModel.Proofs.FuseMultiR3", "SymmModel.Proofs.FuseMultiR4", "SymmModel.Proofs.FuseMultiR5", "SymmModel.Proofs.FuseFermi1", "SymmModel.Proofs.FuseFermi2", "SymmModel.Proofs.FuseFermi3", "SymmModel.Proofs.FuseFermi4", "SymmModel.Proofs.FuseFermi5", "SymmModel.Proofs.FuseFermi6", "SymmModel.Proofs.FuseFermi7", "SymmModel.Props.C05d", "SymmModel.Props.C05All2", "SymmModel.Proofs.Fuse4Sign", "SymmModel.Proofs.Fuse4Sign2", "SymmModel.Proofs.Fuse4Round1", "SymmModel.Proofs.Fuse4Round2", "SymmModel.Proofs.Fuse4Round3", "SymmModel.Proofs.Fuse4Round4", "SymmModel.Proofs.Fuse4Round5", "SymmModel.Proofs.Fuse4Round6"]
+PLANNED = ["fuseInsert_eq_fuseConcat for several groups (one group proved)", "conj commutes with fuse at depth <= 2", "unfuseAllF form of unfuseF_fuseF for arrays with plain indices", "fuse_cache_irrelevant (via C15)"]
 RULE = ("random abelian and fermionic arrays (all symmetries, sparse, pending signs, odd charge), one or more "
         "disjoint ordered axis groups (single-axis, non-adjacent, permuted, empty, second-level fusing of already "
         "fused axes), strategies insert/concat; compared with the Lean model (value view + sub-index tables), and on "
